@@ -61,64 +61,9 @@ func runC13(c *CaseCtx) {
 			}
 		}
 		t.Ops = ops
-		run.NTx++
-		c.Log("tx %d %s", run.NTx, t.String())
-		out := execTx(run.DB, t)
-		c.Stat("transactions", 1)
-		c.Stat("api_calls_compared", int64(len(out.Res)))
-		if out.Panic != "" {
-			c.Violate("panic:tx:"+out.Panic, class, fmt.Sprintf("panic in %s: %s\n%s", t.String(), out.Panic, firstN(out.Stack, 1200)))
-			run.Dead = true
+		unexplained, fatal := twoModelTx(run, t, class, true)
+		if fatal {
 			break
-		}
-		if out.Err != nil {
-			c.Violate("commit-error:"+errClass(out.Err.Error()), class, fmt.Sprintf("transaction %s failed: %v", t.String(), out.Err))
-			break
-		}
-		txStart := run.M
-		seq, alt := run.M.Clone(), run.M.Clone()
-		unexplained := false
-		for j, o := range t.Ops {
-			got := out.Res[j]
-			exp := seq.Expect(o, true)
-			if ok, kind := exp.Accepts(got); !ok {
-				// alternative model of the known finding: the call was evaluated on the state committed at the
-				// start of the transaction, ignoring the transaction's own earlier operations
-				altExp := txStart.Expect(o, true)
-				if ok2, _ := altExp.Accepts(got); ok2 && got.Panic == "" {
-					c.Stat("explained_by_committed_state_reads", 1)
-					c.Violate("alt-model:operations-evaluated-on-committed-state", class,
-						fmt.Sprintf("%s (operation %d of %s): got %s; running the operations one after another gives %s; evaluated on the state at the start of the transaction it gives %s", o.String(), j+1, t.String(), got.String(), exp.String(), altExp.String()))
-				} else {
-					sig := "call:" + o.K + ":" + kind
-					if got.Panic != "" {
-						sig = "panic:" + o.K + ":" + got.Panic
-					}
-					c.Violate(sig, class, fmt.Sprintf("%s (operation %d of %s): got %s; sequential model allows %s; committed-state model allows %s", o.String(), j+1, t.String(), got.String(), exp.String(), altExp.String()))
-					unexplained = true
-				}
-			}
-			seq.Apply(o, got)
-			alt.ApplyCommitTime(o, got)
-		}
-		got, err := obsReal(run.DB, u)
-		if err != nil {
-			c.Violate("obs-view-error", class, err.Error())
-			break
-		}
-		c.Stat("observations", 1)
-		switch {
-		case sameObs(got, obsModel(seq, u)):
-			run.M = seq
-		case sameObs(got, obsModel(alt, u)):
-			run.M = alt
-			c.Stat("explained_by_commit_time_skips", 1)
-			c.Violate("alt-model:operations-evaluated-on-committed-state", class,
-				fmt.Sprintf("state after %s is not the sequential one but the one obtained when operations that were accepted against the committed state are skipped at apply time:\n%s", t.String(), diffObs(got, obsModel(seq, u))))
-		default:
-			c.Violate("obs:after-multi-op-commit:"+firstDiffCall(got, obsModel(seq, u)), class,
-				fmt.Sprintf("state after %s (%s) matches neither the sequential model nor the known-finding model:\n%s", t.String(), cfg, diffObs(got, obsModel(seq, u))))
-			unexplained = true
 		}
 		if unexplained {
 			break
@@ -218,6 +163,79 @@ func c13Template(g *Gen, ds bool) []Op {
 		}
 		return []Op{{K: "RPop", B: b, Key: key}, {K: "RPush", B: b, Key: key, Vals: [][]byte{l[len(l)-1]}}, {K: "RPeek", B: b, Key: key}}
 	}
+}
+
+// twoModelTx executes one multi-operation write transaction and judges it against two executable models: the
+// sequential one (operations run one after another on the state at the start) and the alternative model of the
+// recorded finding KF-C13-COMMITTED-VIEW (every call evaluated on the state committed at the start; logged
+// operations applied in order at Commit, those no longer valid skipped).  A deviation the alternative model
+// reproduces exactly is "explained" (reported as that finding only when reportExplained is set - i.e. by C13);
+// anything else is an unexplained violation of the caller's class.  Returns (unexplained, fatal).
+func twoModelTx(run *Runner, t TxSpec, class string, reportExplained bool) (unexplained bool, fatal bool) {
+	c, u, cfg := run.C, run.U, run.Cfg
+	run.NTx++
+	c.Log("tx %d %s", run.NTx, t.String())
+	out := execTx(run.DB, t)
+	c.Stat("transactions", 1)
+	c.Stat("api_calls_compared", int64(len(out.Res)))
+	if out.Panic != "" {
+		c.Violate("panic:tx:"+out.Panic, class, fmt.Sprintf("panic in %s: %s\n%s", t.String(), out.Panic, firstN(out.Stack, 1200)))
+		run.Dead = true
+		return false, true
+	}
+	if out.Err != nil {
+		c.Violate("commit-error:"+errClass(out.Err.Error()), class, fmt.Sprintf("transaction %s failed: %v", t.String(), out.Err))
+		return false, true
+	}
+	txStart := run.M
+	seq, alt := run.M.Clone(), run.M.Clone()
+	for j, o := range t.Ops {
+		got := out.Res[j]
+		exp := seq.Expect(o, true)
+		if ok, kind := exp.Accepts(got); !ok {
+			// alternative model of the known finding: the call was evaluated on the state committed at the
+			// start of the transaction, ignoring the transaction's own earlier operations
+			altExp := txStart.Expect(o, true)
+			if ok2, _ := altExp.Accepts(got); ok2 && got.Panic == "" {
+				c.Stat("explained_by_committed_state_reads", 1)
+				if reportExplained {
+					c.Violate("alt-model:operations-evaluated-on-committed-state", class,
+					fmt.Sprintf("%s (operation %d of %s): got %s; running the operations one after another gives %s; evaluated on the state at the start of the transaction it gives %s", o.String(), j+1, t.String(), got.String(), exp.String(), altExp.String()))
+				}
+			} else {
+				sig := "call:" + o.K + ":" + kind
+				if got.Panic != "" {
+					sig = "panic:" + o.K + ":" + got.Panic
+				}
+				c.Violate(sig, class, fmt.Sprintf("%s (operation %d of %s): got %s; sequential model allows %s; committed-state model allows %s", o.String(), j+1, t.String(), got.String(), exp.String(), altExp.String()))
+				unexplained = true
+			}
+		}
+		seq.Apply(o, got)
+		alt.ApplyCommitTime(o, got)
+	}
+	got, err := obsReal(run.DB, u)
+	if err != nil {
+		c.Violate("obs-view-error", class, err.Error())
+		return false, true
+	}
+	c.Stat("observations", 1)
+	switch {
+	case sameObs(got, obsModel(seq, u)):
+		run.M = seq
+	case sameObs(got, obsModel(alt, u)):
+		run.M = alt
+		c.Stat("explained_by_commit_time_skips", 1)
+		if reportExplained {
+			c.Violate("alt-model:operations-evaluated-on-committed-state", class,
+				fmt.Sprintf("state after %s is not the sequential one but the one obtained when operations that were accepted against the committed state are skipped at apply time:\n%s", t.String(), diffObs(got, obsModel(seq, u))))
+		}
+	default:
+		c.Violate("obs:after-multi-op-commit:"+firstDiffCall(got, obsModel(seq, u)), class,
+			fmt.Sprintf("state after %s (%s) matches neither the sequential model nor the known-finding model:\n%s", t.String(), cfg, diffObs(got, obsModel(seq, u))))
+		unexplained = true
+	}
+	return unexplained, false
 }
 
 func unexplainedViolations(c *CaseCtx) int {
